@@ -1,4 +1,5 @@
 import LyModel.Dict.LemmasOps
+import LyModel.LyHt.LemmasSpec
 /-!
 `Dict.insert` (`dict_insert` of dict.c) against the specification.
 -/
@@ -165,5 +166,84 @@ theorem insert_spec (H : Bytes → UInt32) (d : Dict) (hd : DInv H d) (v : Bytes
       obtain ⟨hD, hR⟩ := assemble_new H d hd _ (v.take len) hinv4 hload4
         (by rw [onBucket_resize]; exact armed_resize_ne _ hrs1) p5 hnew (take_nonul v len hv)
       exact ⟨hD, trivial, hR⟩
+
+/-- `dict_insert` with `fixes/F50.diff` against the specification: no hypothesis on the hash function -/
+theorem insertFixed_spec (H : Bytes → UInt32) (d : Dict) (hd : DInv H d) (v : Bytes) (len : Nat) (zc alias : Bool)
+    (hv : (0 : UInt8) ∉ v) (hl : len ≤ v.length) :
+    DInv H (d.insertFixed H v len zc alias).2 ∧ (d.insertFixed H v len zc alias).1 = .ok (v.take len) ∧
+    ∀ s, refs (d.insertFixed H v len zc alias).2 s = if s = v.take len then refs d s + 1 else refs d s := by
+  have hiff : ∀ r ∈ d.ht.toList,
+      hit (valEq len) false { str := v, ref := 1, own := alias } (H (v.take len)) r = true ↔ r.2.str = v.take len :=
+    fun r hr => hit_valEq_iff hd.good len false { str := v, ref := 1, own := alias } hl r hr
+  unfold Dict.insertFixed
+  simp only
+  unfold Ht2.find
+  cases hf : (d.ht.bucket (H (v.take len))).find? (hit (valEq len) false { str := v, ref := 1, own := alias } (H (v.take len))) with
+  | some r =>
+    simp only [Option.map_some]
+    obtain ⟨hinv1, hload1, rest, pre, post, p1, p2, hb1, hpre, hpr⟩ :=
+      modify_spec d.ht hd.inv hd.load (H (v.take len)) _ incr r hf rfl
+    have hrmem : r ∈ d.ht.toList := p1.mem_iff.2 (by simp)
+    have hrstr : r.2.str = v.take len := (hiff r hrmem).1 hpr
+    have g1 : Good H (r :: rest) := hd.good.perm p1
+    have hrefs' : ∀ s, refs d s = (if v.take len = s then r.2.ref else 0) + refsL rest s := by
+      intro s; show refsL d.ht.toList s = _
+      rw [refsL_perm p1 s, refsL_cons, hrstr]
+    have g2 : Good H (incr r :: rest) :=
+      g1.tail.cons (g1.hashed r (by simp)) (g1.own r (by simp)) (by simp only [incr]; omega) (g1.nonul r (by simp)) g1.head_not_mem
+    refine ⟨⟨hinv1, hload1, hd.rs, g2.perm p2.symm⟩, trivial, ?_⟩
+    intro s
+    show refsL _ s = _
+    rw [refsL_perm p2, refsL_cons, hrefs' s]
+    simp only [incr, hrstr]
+    by_cases hs : s = v.take len
+    · subst hs; simp; omega
+    · rw [if_neg (fun h => hs h.symm), if_neg hs, if_neg (fun h => hs h.symm)]
+  | none =>
+    simp only [Option.map_none]
+    have hn := (find_none_iff d.ht hd.inv (valEq len) false { str := v, ref := 1, own := alias } (H (v.take len))).1 hf
+    have hnew : ∀ r ∈ d.ht.toList, r.2.str ≠ v.take len := by
+      intro r hr he
+      have := (hiff r hr).2 he
+      rw [hn r hr] at this; exact absurd this (by simp)
+    have hfree := free_of_load hd.inv hd.load hd.rs
+    have hnf : false = true → (d.ht.bucket (H (v.take len))).find?
+        (hit (valEq len) true { str := v.take len, ref := 1, own := true } (H (v.take len))) = none := fun h => by cases h
+    obtain ⟨hinv1, p1⟩ := insert_state d.ht hd.inv (valEq len) none false true { str := v.take len, ref := 1, own := true }
+      (H (v.take len)) hnf hfree (fun h => by cases h)
+    have hld := insert_load d.ht hd.inv hd.load (valEq len) none false true { str := v.take len, ref := 1, own := true }
+      (H (v.take len)) hnf hfree
+    have hrs := insert_resize_ne d.ht (valEq len) none false true { str := v.take len, ref := 1, own := true }
+      (H (v.take len)) hnf hfree hd.rs
+    have hcode : ∃ m, (d.ht.insert (valEq len) none false true { str := v.take len, ref := 1, own := true } (H (v.take len))).1 = .ok m := by
+      have hself : hit (valEq len) false { str := v.take len, ref := 1, own := true } (H (v.take len))
+          (H (v.take len), { str := v.take len, ref := 1, own := true }) = true := by
+        unfold hit
+        rw [Bool.and_eq_true, valEq_iff len false _ _ (take_nonul v len hv) (by simp; omega)]
+        simp
+        rw [List.take_take]; simp
+      rw [insert_eq d.ht (valEq len) none false true _ _ hnf hfree] at hinv1 p1 ⊢
+      split
+      · rename_i he
+        rw [if_pos he] at hinv1 p1
+        simp only [Option.getD_none, if_true] at hinv1 p1 ⊢
+        unfold Ht2.find
+        cases hq : ((d.ht.link { str := v.take len, ref := 1, own := true } (H (v.take len))).armed.resizeTo (valEq len) false
+            (d.ht.size * 2)).bucket (H (v.take len)) |>.find?
+            (hit (valEq len) false { str := v.take len, ref := 1, own := true } (H (v.take len))) with
+        | none =>
+          have := (find_none_iff _ hinv1 (valEq len) false _ _).1 hq
+            (H (v.take len), { str := v.take len, ref := 1, own := true }) (p1.mem_iff.2 (List.mem_cons_self ..))
+          rw [hself] at this; exact absurd this (by simp)
+        | some y => exact ⟨_, rfl⟩
+      · exact ⟨_, rfl⟩
+    obtain ⟨m, hm⟩ := hcode
+    generalize d.ht.insert (valEq len) none false true { str := v.take len, ref := 1, own := true } (H (v.take len)) = res at *
+    obtain ⟨code, ht⟩ := res
+    simp only at hm hinv1 p1 hld hrs
+    subst hm
+    simp only
+    obtain ⟨hD, hR⟩ := assemble_new H d hd ht (v.take len) hinv1 hld hrs p1 hnew (take_nonul v len hv)
+    exact ⟨hD, trivial, hR⟩
 
 end LyModel.Dict
